@@ -252,8 +252,11 @@ func verifK_RegistryKey() {
 // K-IDS (C08 C13 C15): goroutines starting RPCs concurrently: ids reach the wire
 // strictly increasing, every RPC's first frame is its new_stream.
 func verifK_StreamIDs() {
-	car := vNewCliCarrier(context.Background())
-	c := vNewCliChannel(car, 0, false)
+	c := vNewCliChannel(vNewCliCarrier(context.Background()), 0, false)
+	// the carrier as the library really uses it: behind its thread-safe wrapper, whose send mutex makes
+	// "just before a frame goes on the wire" a scheduling point (a Cancel can overtake a NewStream only there)
+	car := &vFwdClientStream{ctx: context.Background(), hangup: make(chan struct{})}
+	c.stream = &threadSafeOpenTunnelClient{TunnelService_OpenTunnelClient: car}
 	n := verifParam("starters")
 	ids := make([]int64, n)
 	ctx0, cancel0 := context.WithCancel(context.Background())
@@ -282,7 +285,7 @@ func verifK_StreamIDs() {
 			last = f.StreamId
 			seenNew[f.StreamId] = true
 		} else {
-			verifAssert(seenNew[f.StreamId], "C08+C13.k-new-stream-precedes-every-other-frame")
+			verifAssert(seenNew[f.StreamId], "C03+C07+C08+C13.k-new-stream-precedes-every-other-frame")
 		}
 	}
 	for i := 0; i < n; i++ {
